@@ -276,6 +276,39 @@ fn date_on_year(
     }
 }
 
+/// Year carried by a date, if any.
+fn date_year(date: ds::Date) -> Option<i32> {
+    match date {
+        ds::Date::Fixed { year, .. } | ds::Date::Easter { year } => year.map(Into::into),
+    }
+}
+
+/// When the start of a dated range carries a year, the range denotes a single interval: from
+/// this start to the end on its own year if it carries one, else to the first occurence of the
+/// end which is not before the start. The resulting interval is empty if it ends before it
+/// starts.
+fn single_interval_from_bounds(
+    (start, start_offset): (ds::Date, ds::DateOffset),
+    (end, end_offset): (ds::Date, ds::DateOffset),
+) -> Option<RangeInclusive<NaiveDate>> {
+    let start_year = date_year(start)?;
+    let start_date = start_offset.apply(date_on_year(start, start_year, valid_ymd_after)?);
+
+    let end_date = {
+        if let Some(end_year) = date_year(end) {
+            end_offset.apply(date_on_year(end, end_year, valid_ymd_before)?)
+        } else {
+            (start_date.year() - 1..=start_date.year() + 2)
+                .filter_map(|y| date_on_year(end, y, valid_ymd_before))
+                .map(|d| end_offset.apply(d))
+                .find(|end_date| *end_date >= start_date)
+                .unwrap_or(DATE_END.date())
+        }
+    };
+
+    Some(start_date..=end_date)
+}
+
 impl DateFilter for ds::MonthdayRange {
     fn filter<L>(&self, date: NaiveDate, _ctx: &Context<L>) -> bool
     where
@@ -293,6 +326,12 @@ impl DateFilter for ds::MonthdayRange {
                 end: (end, end_offset),
             } => {
                 let year = date.year();
+
+                if let Some(interval) =
+                    single_interval_from_bounds((*start, *start_offset), (*end, *end_offset))
+                {
+                    return interval.contains(&date);
+                }
 
                 if *start == Date::md(29, Month::February) && *end == Date::md(29, Month::February)
                 {
@@ -375,45 +414,16 @@ impl DateFilter for ds::MonthdayRange {
                 }
             }
             ds::MonthdayRange::Date {
-                start:
-                    (
-                        ds::Date::Fixed {
-                            year: Some(start_year),
-                            month: start_month,
-                            day: start_day,
-                        },
-                        start_offset,
-                    ),
-                end:
-                    (ds::Date::Fixed { year: end_year, month: end_month, day: end_day }, end_offset),
-            } => {
-                let start = start_offset.apply(NaiveDate::from_ymd_opt(
-                    (*start_year).into(),
-                    *start_month as _,
-                    (*start_day).into(),
-                )?);
-
-                let end = {
-                    let candidate = end_offset.apply(NaiveDate::from_ymd_opt(
-                        end_year.unwrap_or_else(|| *start_year).into(),
-                        *end_month as _,
-                        (*end_day).into(),
-                    )?);
-
-                    if start <= candidate {
-                        candidate
-                    } else {
-                        candidate.with_year(candidate.year() + 1)?
-                    }
-                };
-
-                Some(next_change_from_bounds(date, [start], [end]))
-            }
-            ds::MonthdayRange::Date {
                 start: (start, start_offset),
                 end: (end, end_offset),
             } => {
                 let year = date.year();
+
+                if let Some(interval) =
+                    single_interval_from_bounds((*start, *start_offset), (*end, *end_offset))
+                {
+                    return Some(next_change_from_intervals(date, [interval].into_iter()));
+                }
 
                 if *start == Date::md(29, Month::February) && *end == Date::md(29, Month::February)
                 {
